@@ -126,6 +126,12 @@ def unit_items(seq):
                     return None
                 out += sub
             return out
+        if k == z3.Z3_OP_ITE:
+            # the simplifier hoists ite out of unit lists: [.., ite(c,a,b), ..] == ite(c, [..,a,..], [..,b,..])
+            a, b = unit_items(seq.arg(1)), unit_items(seq.arg(2))
+            if a is not None and b is not None and len(a) == len(b):
+                c = seq.arg(0)
+                return [x if z3.eq(x, y) else z3.If(c, x, y) for x, y in zip(a, b)]
     return None
 
 
